@@ -7,7 +7,8 @@ TRUSTED = ["typestate model of byte streams / PIL images: open() and io.BytesIO(
            "CPython releases objects that are no longer referenced (exceptional exits only)"]
 ASSUMPTIONS = []
 NOT_DECIDED = ["textual equality of each iterated frame with format(image, spec) of that frame (dataflow argument only, DESIGN 5.C11)",
-               "URL-sourced images: temporary file lifetime (unit not online yet)"]
+               "URL-sourced images: faults of os.write / os.close while the temporary copy is being written (not in the property's quantifier)"]
 
 from .C04 import u_renderer_frame  # noqa: F401,E402  (size setting restored by _renderer on every exit)
 from .old_draw import *   # noqa: F401,E402  old-API draw / _display_animated
+from .url_source import *   # noqa: F401,F403,E402  URL-sourced images: temporary file lifetime
